@@ -118,3 +118,15 @@ func H_dbg5() {
 	vfAssert(computeFreeSliceNum(a) == 3, "dbg.walk")
 	vfCover("dbg.end")
 }
+
+func H_dbg6() {
+	ev := pollingEventWithVersion[2]
+	vfAssert(len(ev) == headerSize, "dbg6.len")
+	vfAssert(header(ev).Magic() == magicNumber, "dbg6.magic")
+	vfAssert(header(ev).Version() == 2, "dbg6.version")
+	vfAssert(header(ev).MsgType() == typePolling, "dbg6.type")
+	vfAssert(checkEventValid(header(ev)) == nil, "dbg6.valid")
+	vfAssert(len(protocolHandlers) > int(typePolling), "dbg6.handlers")
+	vfAssert(protocolHandlers[typePolling] != nil, "dbg6.handler-nonnil")
+	vfCover("dbg6.end")
+}
